@@ -49,7 +49,7 @@ ASSUMPTIONS = [
     "(code, one yield, code; no try/finally), as @asynccontextmanager, as a bare async generator, or as an AbstractAsyncContextManager class",
     "entry point (i) calls runner.cleanup() in a finally also when runner.setup() raised; entry point (ii) cancels the _run_app task once "
     "it printed 'Running on', which is what run_app does on SIGINT/SIGTERM; entry point (iii) is the real run_app in a child process",
-    "VLoop/MemPipe fidelity (selftest/test_engine.py); the shutdown instant is the call of runner.cleanup(); bytes written by a client at a "
+    "VLoop/MemPipe fidelity (selftest/smoke_engine.py); the shutdown instant is the call of runner.cleanup(); bytes written by a client at a "
     "strictly later virtual time are 'later' bytes, bytes written at the same virtual instant are grey (recorded, not judged)",
     "ceil rounding of timeouts >= 5 s (docs/web_advanced.rst 'Ceil of absolute timeout value') adds at most 1 s per timeout phase",
 ]
